@@ -82,6 +82,20 @@ CHECKS.update({
         level_note="Holders are phantom owners placed directly in the audit lock table (observationally identical for try-operations, which consult only the raw lock).",
         technique="runtime monitoring: exhaustive enumeration against a reference oracle over audit raw locks",
     ),
+    "C14": dict(
+        level_text="Other (compile-gated execution): one minimal offending program per escape route (34 routes), each with a compiling and running twin; rustc against the rlib built from the current tree decides; accepted offending programs are executed and must show their own harm. Plus the C06 KeyModel histories as run-time evidence on the accepted surface. Two routes are open on the current tree and recorded as known finding D2; defect D10 (second key after a refused get) was found by the KeyModel and repaired.",
+        design_ref="DESIGN.md §3 C14, §2.8",
+        level_note="The 'for all programs' quantifier is sampled by a finite corpus of escape shapes; rejection is rustc's observation. Every *violation* this lane reports is backed by an executed witness.",
+        technique="compile-gated corpus with executed witnesses + runtime KeyModel monitor",
+        engine="compile-gate",
+    ),
+    "C15": dict(
+        level_text="Other (compile-gated execution + sanitizers): 41 escape routes with twins, the run-time auto-trait matrix (216 probes against std analogues) and the production-lock workload under Miri. Defects D1 (RwLock Sync / RefLockCollection Send bounds) and the Mutex/RwLock half of D3 were found here and repaired; the collection half of D3 is a recorded known finding.",
+        design_ref="DESIGN.md §3 C15, §2.8",
+        level_note="Finite corpus of escape shapes; rustc decides acceptance; Miri / native self-checks provide witnesses for accepted programs.",
+        technique="compile-gated corpus with executed witnesses, run-time auto-trait matrix vs std, Miri on production locks",
+        engine="compile-gate",
+    ),
     "C16": dict(
         level_text="Exploration by runtime monitoring + sanitizers: drop-counting tokens (table id -> drops, no addresses remembered) through every construction/destruction path of every collection kind and container shape, values written under a lock and compared positionally after extraction; the same workload runs under Miri (leak check on, double free / use-after-free / uninit reads are UB reports) and, in the thorough tier, under valgrind memcheck. Each sanitizer lane first has to flag a canary.",
         design_ref="DESIGN.md §3 C16",
